@@ -212,6 +212,10 @@ func exprShort(e ast.Expr) string {
 // type-assertion ok variables do not make an exclusion update partial.
 func benignBitmapGuard(info *types.Info, f Fact) bool {
 	if f.Tag != nil {
+		// "the dynamic type of x is T" (a type switch case or the ok of a type assertion) is as benign as the ok variable itself
+		if tv, ok := info.Types[f.Expr]; ok && tv.IsType() {
+			return true
+		}
 		return false
 	}
 	if _, _, ok := nilTest(info, f.Expr); ok {
